@@ -114,9 +114,14 @@ def regen_leaves(ctx, which):
     return changed
 
 def ensure_makefile():
-    mk = os.path.join(COQ, "Makefile")
+    """_CoqProject lists every .v under coq/ except the extraction files (compiled separately)."""
+    files = sorted(os.path.relpath(p, COQ) for p in glob.glob(os.path.join(COQ, "**", "*.v"), recursive=True)
+                   if "/Extract/" not in p)
+    text = "-Q . OVM\n" + "\n".join(files) + "\n"
     cp = os.path.join(COQ, "_CoqProject")
-    if not os.path.exists(mk) or os.path.getmtime(mk) < os.path.getmtime(cp):
+    changed = write_if_changed(cp, text)
+    mk = os.path.join(COQ, "Makefile")
+    if changed or not os.path.exists(mk) or os.path.getmtime(mk) < os.path.getmtime(cp):
         sh(["coq_makefile", "-f", "_CoqProject", "-o", "Makefile"], cwd=COQ)
 
 def theorem_names(vfile):
